@@ -400,7 +400,9 @@ def write_evidence(path, prop, tier, seed, results, agg, known_hit, violations, 
         "discharged": n_proved,
         "known_finding_obligations": sorted(known_hit),
         "checker_cmd": f"./check {prop} --tier {tier}",
-        "trusted_base": sorted(axioms) + sorted(assumed) + [
+        # (explicit preconditions a contract places on a CALLEE - marked `ASSUMED of ...` in the task - are assumptions left
+        # unchecked, not just notes)
+        "trusted_base": sorted(axioms) + sorted(assumed) + sorted(n for n in notes if n.startswith("ASSUMED of ")) + [
             "A1: floats are mathematical reals", "A2: traced value = concrete value apart from Python-level concreteness tests",
             "A3: external calls are pure functions of their arguments", "A9: checkify off, beartype checks not modelled",
             "A12: the pyvc engine (AST symbolic executor) and the SMT solvers"],
